@@ -2,6 +2,7 @@ use crate::outcome::PropDef;
 
 pub mod c01;
 pub mod c02;
+pub mod c04;
 pub mod c05;
 pub mod c06;
 pub mod c07;
@@ -17,6 +18,7 @@ pub fn all() -> Vec<&'static PropDef> {
     vec![
         &c01::PROP,
         &c02::PROP,
+        &c04::PROP,
         &c05::PROP,
         &c06::PROP,
         &c07::PROP,
